@@ -114,6 +114,11 @@ func shortFile(f string) string {
 }
 
 func (x *Exec) addObl(st *State, kind, label string, goal Term, pos, detail string) {
+	if kind == "safe" && (label == "slice" || label == "index") && x.c.Config["bounds"] == "unchecked" {
+		// config bounds unchecked: index and slice bounds of this function are not obligations (the contract then
+		// speaks about executions that do not panic; stated in the contract's comment and in the evidence)
+		return
+	}
 	if !goal.IsTrue() && strings.HasPrefix(goal.S, "(=> ") && refutedAntecedent(st, goal.S) {
 		// the antecedent contradicts a literal equality on the path (e.g. another arm of a type
 		// switch): discharged syntactically
